@@ -47,8 +47,10 @@ pub struct CertShape {
     pub custom_crit: u8,
     /// serial: -1 = None (automatic; `ring` configuration only), else number of bytes
     pub serial: i8,
-    /// concrete first serial byte (it decides the INTEGER's length)
+    /// concrete first serial byte (it decides the INTEGER's length); for the automatic serial:
+    /// first and second byte of the (uninterpreted) digest
     pub serial_b0: u8,
+    pub serial_b1: u8,
     /// subject key-id method: 0 PreSpecified(kid_len bytes), 1 Sha256, 2 Sha384, 3 Sha512
     pub kid: u8,
     pub kid_len: u8,
@@ -169,9 +171,17 @@ pub fn make_kid(kind: u8, len: usize) -> KeyIdMethod {
 
 /// Serial with concrete length and concrete first byte (it decides the INTEGER length), rest symbolic.
 pub fn make_serial(n: usize, b0: u8) -> SerialNumber {
+    make_serial2(n, b0, 0x01)
+}
+
+/// ... and, when the first byte is zero (it is stripped), a concrete second byte as well.
+pub fn make_serial2(n: usize, b0: u8, b1: u8) -> SerialNumber {
     let mut v = sym_bytes(n);
     if n > 0 {
         v[0] = b0;
+    }
+    if n > 1 && b0 == 0 {
+        v[1] = b1;
     }
     SerialNumber::from(v)
 }
@@ -294,7 +304,7 @@ pub fn build_params(s: &CertShape, st: &mut Stores) -> Built {
     let sl = s.strlen as usize;
     let mut p = empty_params();
     if s.serial >= 0 {
-        p.serial_number = Some(make_serial(s.serial as usize, s.serial_b0));
+        p.serial_number = Some(make_serial2(s.serial as usize, s.serial_b0, s.serial_b1));
     }
     p.subject_alt_names = backed_vec(&mut st.san, s.san.len());
     p.is_ca = match s.is_ca {
@@ -731,7 +741,12 @@ pub fn oracle_c03(der: &[u8], x: &Issued) {
 
 pub fn run(s: &CertShape) {
     #[cfg(feature = "ring")]
-    crate::env::digest_stub::layout_ok();
+    {
+        crate::env::digest_stub::layout_ok();
+        if s.serial < 0 {
+            crate::env::digest_stub::fix_first_bytes(s.serial_b0, s.serial_b1);
+        }
+    }
     let mut st = Stores::new(s);
     let mut st2 = st.duplicate();
     let b = build_params(s, &mut st);
